@@ -341,9 +341,38 @@ func (f changeFinder) walkSlice(from, to *value) bool {
 type nodeComparer struct{ diff.Result }
 
 func compareNodes(from, to *value) diff.Result {
+	// An import declaration and a type, var or const declaration have most
+	// of their fields in common, but one is never a modification of the
+	// other: treating them as similar pairs the declaration that follows a
+	// removed import declaration with that import, and reports the rest of
+	// it as deleted.
+	if ft, ok := genDeclTok(from); ok {
+		if tt, ok := genDeclTok(to); ok && ft != tt {
+			return diff.Result{NumDiff: 2} // not equal or similar
+		}
+	}
+
 	var c nodeComparer
 	c.Walk(from, to)
 	return c.Result
+}
+
+// genDeclTok reports the keyword of the declaration if v is a snapshot of a
+// *ast.GenDecl.
+func genDeclTok(v *value) (token.Token, bool) {
+	for v != nil && !v.IsNil() && (v.Kind() == reflect.Ptr || v.Kind() == reflect.Interface) {
+		v = v.Elem
+	}
+	if v == nil || v.IsNil() || v.Type() != goast.GenDeclType {
+		return 0, false
+	}
+	for i := 0; i < goast.GenDeclType.NumField(); i++ {
+		if goast.GenDeclType.Field(i).Name == "Tok" {
+			tok, ok := v.Children[i].Interface().(token.Token)
+			return tok, ok
+		}
+	}
+	return 0, false
 }
 
 func (c *nodeComparer) Walk(from, to *value) {
